@@ -468,6 +468,34 @@ func (m *MonC17) limits(w *World, b *BlockCtx) {
 				return
 			}
 		}
+		// the cut ranks by the stakes as recalculated in this block: a removed candidate (all stakes and
+		// pending delegations in the base coin) never has more than a non-validator that stayed
+		fresh, plain := new(big.Int), true
+		for _, st := range pc.Stakes {
+			if st.Coin != 0 {
+				plain = false
+			}
+			fresh.Add(fresh, bi(st.Value))
+		}
+		for _, u := range pc.Updates {
+			if u.Coin != 0 {
+				plain = false
+			}
+			fresh.Add(fresh, bi(u.Value))
+		}
+		// (unbonds, moves and punishments of this very block change stakes before the cut: not judged)
+		if plain && len(b.Req.Evidence) == 0 && acceptedOfType(b, byte(transaction.TypeUnbond))+acceptedOfType(b, byte(transaction.TypeMoveStake)) == 0 {
+			for _, cc := range b.Cur.Cands {
+				if b.Prev.Vals[cc.PubKey] != nil {
+					continue
+				}
+				if kept := bi(cc.TotalBipStake); fresh.Cmp(kept) > 0 {
+					w.Report("C17", "validator-set", "richer-candidate-removed", fmt.Sprintf("height %d: candidate %d with %s staked (pending delegations included) was removed by the 100-candidate limit while candidate %d with %s stays", b.Height, pc.ID, fresh, cc.ID, kept), b.Height)
+					return
+				}
+			}
+			w.Probe("c17_removed_candidate_rank_checked")
+		}
 		m.classes["candidate-removed-over-100"] = true
 		w.Probe("c17_candidate_removed_over_100")
 	}
@@ -1087,7 +1115,7 @@ func init() {
 		},
 		Monitors: func(sc *Scenario) []Monitor { return []Monitor{&MonC17{}} },
 		Distinct: func(w *World) []string { return classesOf(w) },
-		ExpectProbes: []string{"c17_update_checked", "c17_candidate_removed_over_100", "c17_full_slots_checked"},
+		ExpectProbes: []string{"c17_update_checked", "c17_candidate_removed_over_100", "c17_full_slots_checked", "c17_removed_candidate_rank_checked"},
 	})
 	register(&PropSpec{ID: "C18", Level: "exploration",
 		Rule: "vote sets with absence streaks around the 12-of-24 limit, whole-set outages and byzantine evidence against current, offline, dropped and unknown validators (also repeated and on payout blocks); reference window / jail / 5% slash model from the statement compared with exported candidates, frozen funds, validator list and later SetCandidateOnline outcomes; distinct non-trivial case = distinct punishment class",
